@@ -46,7 +46,7 @@ Ltac get_prog :=
     let p := eval vm_compute in (prog name) in change (prog name) with p end.
 
 Ltac sel := cbn [s_buf s_i s_n s_x s_eb set_buf set_i e_v e_id e_self_fill e_self_width
-                 wv_n wv_b wv_s wv_k wv_v ev_c ev_i ev_b call_k env_of env_userprop valN valB valS fst snd].
+                 wv_n wv_b wv_s wv_k wv_v ev_c ev_i ev_b call_k wenv_of env_userprop valN valB valS fst snd].
 
 Lemma exec_list_cons E a l s :
   exec_list E (a :: l) s = match exec E a s with Some (Next s') => exec_list E l s' | r => r end.
@@ -61,7 +61,7 @@ Ltac head :=
         | rewrite exec_list_nil; cbn [exec] ]; sel.
 
 Lemma run_u16_fill n id buf i :
-  run_fill (prog "wuint16.fill") (env_of U16 (VN n) id) buf i = fill_u16 n buf i.
+  run_fill (prog "wuint16.fill") (wenv_of U16 (VN n) id) buf i = fill_u16 n buf i.
 Proof.
   unfold run_fill, fill_u16. get_prog. head.
   destruct (Nat.leb (i + 2) (List.length buf)).
@@ -70,7 +70,7 @@ Proof.
 Qed.
 
 Lemma run_u8_fill name n id buf i : name = "bits.fill"%string \/ name = "Ident.fill"%string ->
-  run_fill (prog name) (env_of U8 (VN n) id) buf i = fill_u8 n buf i.
+  run_fill (prog name) (wenv_of U8 (VN n) id) buf i = fill_u8 n buf i.
 Proof.
   intros [->| ->]; unfold run_fill, fill_u8, ret; get_prog; head;
   (destruct (Nat.leb (i + 1) (List.length buf));
@@ -79,7 +79,7 @@ Proof.
 Qed.
 
 Lemma run_bool_fill b id buf i :
-  run_fill (prog "wbool.fill") (env_of WBool (VB b) id) buf i = fill_bool b buf i.
+  run_fill (prog "wbool.fill") (wenv_of WBool (VB b) id) buf i = fill_bool b buf i.
 Proof.
   unfold run_fill, fill_bool, ret. get_prog. head.
   destruct (Nat.leb (i + 1) (List.length buf)).
@@ -89,7 +89,7 @@ Proof.
 Qed.
 
 Lemma run_u32_fill n id buf i :
-  run_fill (prog "wuint32.fill") (env_of U32 (VN n) id) buf i = fill_u32 n buf i.
+  run_fill (prog "wuint32.fill") (wenv_of U32 (VN n) id) buf i = fill_u32 n buf i.
 Proof.
   unfold run_fill, fill_u32, ret. get_prog. head.
   destruct (Nat.leb (i + 4) (List.length buf)).
@@ -98,7 +98,7 @@ Proof.
 Qed.
 
 Lemma run_bin_fill s id buf i :
-  run_fill (prog "bindata.fill") (env_of Bin (VS s) id) buf i = fill_bin s buf i.
+  run_fill (prog "bindata.fill") (wenv_of Bin (VS s) id) buf i = fill_bin s buf i.
 Proof.
   unfold run_fill, fill_bin. get_prog. head.
   destruct (Nat.leb (i + (2 + List.length s)) (List.length buf)).
@@ -108,7 +108,7 @@ Proof.
 Qed.
 
 Lemma run_raw_fill s id buf i :
-  run_fill (prog "rawdata.fill") (env_of Raw (VS s) id) buf i = fill_raw s buf i.
+  run_fill (prog "rawdata.fill") (wenv_of Raw (VS s) id) buf i = fill_raw s buf i.
 Proof.
   unfold run_fill, fill_raw. get_prog. head.
   destruct (Nat.leb (i + List.length s) (List.length buf)).
@@ -117,23 +117,23 @@ Proof.
 Qed.
 
 Lemma run_raw_fillprop s id buf i :
-  run_fill (prog "rawdata.fillProp") (env_of Raw (VS s) id) buf i = None.
+  run_fill (prog "rawdata.fillProp") (wenv_of Raw (VS s) id) buf i = None.
 Proof. reflexivity. Qed.
 
 Lemma run_ident_fillprop n id buf i :
-  run_fill (prog "Ident.fillProp") (env_of U8 (VN n) id) buf i = Some (buf, 0).
+  run_fill (prog "Ident.fillProp") (wenv_of U8 (VN n) id) buf i = Some (buf, 0).
 Proof. reflexivity. Qed.
 
 (* width methods: nothing is written, the model's width is returned *)
 Lemma run_widths buf i id :
-  (forall n, run_fill (prog "bits.width") (env_of U8 (VN n) id) buf i = Some (buf, 1)) /\
-  (forall n, run_fill (prog "Ident.width") (env_of U8 (VN n) id) buf i = Some (buf, 1)) /\
-  (forall b, run_fill (prog "wbool.width") (env_of WBool (VB b) id) buf i = Some (buf, 1)) /\
-  (forall n, run_fill (prog "wuint16.width") (env_of U16 (VN n) id) buf i = Some (buf, 2)) /\
-  (forall n, run_fill (prog "wuint32.width") (env_of U32 (VN n) id) buf i = Some (buf, 4)) /\
-  (forall s, run_fill (prog "bindata.width") (env_of Bin (VS s) id) buf i = Some (buf, 2 + List.length s)) /\
-  (forall s, run_fill (prog "rawdata.width") (env_of Raw (VS s) id) buf i = Some (buf, List.length s)) /\
-  (forall n, run_fill (prog "vbint.width") (env_of Vb (VN n) id) buf i = Some (buf, dry_count (fill_vb n [] 0))) /\
+  (forall n, run_fill (prog "bits.width") (wenv_of U8 (VN n) id) buf i = Some (buf, 1)) /\
+  (forall n, run_fill (prog "Ident.width") (wenv_of U8 (VN n) id) buf i = Some (buf, 1)) /\
+  (forall b, run_fill (prog "wbool.width") (wenv_of WBool (VB b) id) buf i = Some (buf, 1)) /\
+  (forall n, run_fill (prog "wuint16.width") (wenv_of U16 (VN n) id) buf i = Some (buf, 2)) /\
+  (forall n, run_fill (prog "wuint32.width") (wenv_of U32 (VN n) id) buf i = Some (buf, 4)) /\
+  (forall s, run_fill (prog "bindata.width") (wenv_of Bin (VS s) id) buf i = Some (buf, 2 + List.length s)) /\
+  (forall s, run_fill (prog "rawdata.width") (wenv_of Raw (VS s) id) buf i = Some (buf, List.length s)) /\
+  (forall n, run_fill (prog "vbint.width") (wenv_of Vb (VN n) id) buf i = Some (buf, dry_count (fill_vb n [] 0))) /\
   (forall kv, run_fill (prog "UserProp.width") (env_userprop kv id) buf i = Some (buf, width_userprop kv)).
 Proof. repeat split; intros; reflexivity. Qed.
 
@@ -152,7 +152,7 @@ Proof.
 Qed.
 
 Lemma run_fillprop w v id buf i : w <> Raw ->
-  run_fill (prog (go_type w ++ ".fillProp")) (env_of w v id) buf i = wfill_prop w id v buf i.
+  run_fill (prog (go_type w ++ ".fillProp")) (wenv_of w v id) buf i = wfill_prop w id v buf i.
 Proof.
   intros Hw. unfold run_fill, wfill_prop.
   destruct w; try congruence; cbn [go_type append]; get_prog; fold prop_tail;
@@ -165,7 +165,7 @@ Proof.
 Qed.
 
 Lemma run_bits_fillopt n id buf i :
-  run_fill (prog "bits.fillOpt") (env_of U8 (VN n) id) buf i = fill_opt n buf i.
+  run_fill (prog "bits.fillOpt") (wenv_of U8 (VN n) id) buf i = fill_opt n buf i.
 Proof.
   unfold run_fill, fill_opt. get_prog. head.
   destruct (n =? 0)%N.
@@ -236,7 +236,7 @@ Proof.
 Qed.
 
 Lemma run_vb_fill n id buf i :
-  run_fill (prog "vbint.fill") (env_of Vb (VN n) id) buf i = fill_vb n buf i.
+  run_fill (prog "vbint.fill") (wenv_of Vb (VN n) id) buf i = fill_vb n buf i.
 Proof.
   unfold run_fill, fill_vb. get_prog. fold vb_body. head. head.
   rewrite exec_list_cons, exec_for.
@@ -254,7 +254,7 @@ Qed.
 (* all wire types at once                                               *)
 
 Theorem wire_fill_is_prog w v id buf i :
-  run_fill (prog (go_type w ++ ".fill")) (env_of w v id) buf i = wfill w v buf i.
+  run_fill (prog (go_type w ++ ".fill")) (wenv_of w v id) buf i = wfill w v buf i.
 Proof.
   destruct w; cbn [go_type append wfill].
   - exact (run_u8_fill _ (valN v) id buf i (or_introl eq_refl)).
@@ -267,19 +267,19 @@ Proof.
 Qed.
 
 Theorem wire_fillprop_is_prog w v id buf i :
-  run_fill (prog (go_type w ++ ".fillProp")) (env_of w v id) buf i = wfill_prop w id v buf i.
+  run_fill (prog (go_type w ++ ".fillProp")) (wenv_of w v id) buf i = wfill_prop w id v buf i.
 Proof.
   destruct w; try reflexivity; apply run_fillprop; discriminate.
 Qed.
 
 Theorem wire_width_is_prog w v id buf i :
-  run_fill (prog (go_type w ++ ".width")) (env_of w v id) buf i = Some (buf, e_self_width (env_of w v id)).
+  run_fill (prog (go_type w ++ ".width")) (wenv_of w v id) buf i = Some (buf, e_self_width (wenv_of w v id)).
 Proof. destruct w; reflexivity. Qed.
 
 Theorem ident_is_prog n id buf i :
-  run_fill (prog "Ident.fill") (env_of U8 (VN n) id) buf i = fill_u8 n buf i /\
-  run_fill (prog "Ident.fillProp") (env_of U8 (VN n) id) buf i = Some (buf, 0) /\
-  run_fill (prog "Ident.width") (env_of U8 (VN n) id) buf i = Some (buf, 1).
+  run_fill (prog "Ident.fill") (wenv_of U8 (VN n) id) buf i = fill_u8 n buf i /\
+  run_fill (prog "Ident.fillProp") (wenv_of U8 (VN n) id) buf i = Some (buf, 0) /\
+  run_fill (prog "Ident.width") (wenv_of U8 (VN n) id) buf i = Some (buf, 1).
 Proof. split; [exact (run_u8_fill _ n id buf i (or_intror eq_refl))|split; reflexivity]. Qed.
 
 Theorem userprop_is_prog kv id buf i :
@@ -292,18 +292,18 @@ Qed.
 
 (* the width the guards of fill use is the number of bytes the type contributes *)
 Lemma self_width_is_length w v id : w <> Vb ->
-  e_self_width (env_of w v id) = List.length (encode w v).
+  e_self_width (wenv_of w v id) = List.length (encode w v).
 Proof.
-  intros Hw. destruct w; try congruence; cbn [env_of e_self_width encode]; try reflexivity.
+  intros Hw. destruct w; try congruence; cbn [wenv_of e_self_width encode]; try reflexivity.
 Qed.
 
 (* the width methods return the number of bytes the type contributes - the
    amount buffer.get advances by after a decode (Wire.width) *)
 Theorem wire_width_is_width w v id buf i :
-  run_fill (prog (go_type w ++ ".width")) (env_of w v id) buf i = Some (buf, Wire.width w v).
+  run_fill (prog (go_type w ++ ".width")) (wenv_of w v id) buf i = Some (buf, Wire.width w v).
 Proof.
   rewrite wire_width_is_prog. unfold Wire.width. f_equal. f_equal.
   destruct w; try (apply self_width_is_length; discriminate).
-  cbn [env_of e_self_width encode].
+  cbn [wenv_of e_self_width encode].
   destruct (fill_vb_ok (valN v) [] 0) as (b' & E & _). rewrite E. reflexivity.
 Qed.
